@@ -1030,7 +1030,12 @@ def check_c06(ctx):
 
 def check_c02(ctx):
     """C02 for legacy download_file (single and ranged).  Reports through ctx.report."""
-    _check_downloads(ctx, 'c02', c02_cases(ctx), c02_oracle)
+    cases = c02_cases(ctx)
+    # destination-side faults too (failing write / open in the IO thread): a download that reports
+    # success holds the whole object whatever failed on the way
+    io = [c for c in c06_cases(ctx) if c.get('io_fail') is not None or c.get('io_open_fault')]
+    cases += io[:: max(1, len(io) // (400 if ctx.thorough() else 120))]
+    _check_downloads(ctx, 'c02', cases, c02_oracle)
 
 
 # ---------------------------------------------------------------- liveness side observation
